@@ -98,6 +98,11 @@ func SleepOrWake(d time.Duration, list *[]*Task) {
 	s.cur.timerSeq = 0
 }
 
+// ClockReadHook, if set by a scenario, is called when instrumented code reads the clock
+// through time.Now (a seam inside operations that have no other: a harness may wake a parked
+// task there). It is cleared at the end of every run.
+var ClockReadHook func()
+
 // MakeRunnable wakes a task parked by SleepOrWake.
 //
 //go:norace
